@@ -24,12 +24,13 @@ theorem c08_on_source (ls : List Label) (s : PSt) (h : run procSem init ls = som
 
 
 
+
 -- BEGIN PINS (written by bin/mkpins; do not edit by hand)
 /-- the Go functions this property's model and obligations were written against have exactly the
 pinned skeletons (SHA-256 prefix of the atom list) -/
 theorem pinned_skeletons_c08 :
     pinsOk
-    [("Scipipe.#decls", "7633eb8a74616d59"),
+    [("Scipipe.#decls", "08e57e98702ecd70"),
      ("Scipipe.InPort_CloseConnection", "19d2a9417eaebec1"),
      ("Scipipe.InPort_Recv", "e48def2c3f368dd0"),
      ("Scipipe.InPort_Send", "62cb51bf3ab53084"),
